@@ -168,7 +168,11 @@ def strip_comments(text):
 def _library_modules():
     """files of the library as built: everything imported by the root file, plus the driver and the audit"""
     root = os.path.join(LEAN_DIR, "SpowtdModel.lean")
-    out = {root, os.path.join(LEAN_DIR, "Main.lean"), os.path.join(LEAN_DIR, "SpowtdModel", "Audit.lean")}
+    out = {root, os.path.join(LEAN_DIR, "Main.lean"), os.path.join(LEAN_DIR, "SpowtdModel", "Audit.lean"),
+           os.path.join(LEAN_DIR, "SchemaTie.lean")}
+    tie = os.path.join(LEAN_DIR, "SchemaTie")
+    if os.path.isdir(tie):
+        out |= {os.path.join(tie, f) for f in os.listdir(tie) if f.endswith(".lean")}
     with open(root) as fh:
         for line in fh:
             m = re.match(r"import\s+(SpowtdModel\.[\w.]+)", line)
@@ -205,12 +209,55 @@ def parse_axioms(text):
     return res
 
 
-def audit(theorems, timeout=3000):
+def schema_tie(groups, timeout=600):
+    """Translator tie: regenerate lean/SchemaTie/Generated.lean from <repo>/spowtd/schema.sql and re-check the
+    `rfl` statements of the given groups (what the model and its proofs assume about those tables/views).
+    Returns a list of problems (empty when every statement still checks)."""
+    problems = []
+    if not groups:
+        return problems
+    p = subprocess.run([sys.executable, os.path.join(VERIF, "tools", "gen_schema.py"), REPO],
+                       capture_output=True, text=True, timeout=timeout)
+    if p.returncode != 0:
+        return ["schema translator failed on %s/spowtd/schema.sql: %s" % (REPO, (p.stdout + p.stderr)[-400:])]
+    for g in ["Names"] + list(groups):
+        p = subprocess.run(["lake", "build", "SchemaTie." + g], cwd=LEAN_DIR, capture_output=True, text=True, timeout=timeout)
+        if p.returncode != 0:
+            lines = [ln for ln in (p.stdout + p.stderr).split("\n") if "error" in ln.lower()][:4]
+            names = []
+            try:
+                with open(os.path.join(LEAN_DIR, "SchemaTie", g + ".lean")) as fh:
+                    src = fh.read().split("\n")
+                for ln in lines:
+                    m = re.search(r"SchemaTie/%s\.lean:(\d+):" % g, ln)
+                    if m:
+                        above = [x for x in src[:int(m.group(1))] if x.startswith("theorem ")]
+                        if above and above[-1].split()[1] not in names:
+                            names.append(above[-1].split()[1])
+            except OSError:
+                pass
+            problems.append("schema tie: theorem(s) %s of SchemaTie/%s.lean no longer check against spowtd/schema.sql: %s" % (
+                ", ".join("Spowtd.SchemaTie." + n for n in names) or "?", g, " | ".join(lines)[:500]))
+    return problems
+
+
+def audit(theorems, timeout=3000, schema_groups=()):
     """Build the Lean project, grep for escape hatches, check axioms of `theorems`.
 
     Returns a dict: ok, build_ok, problems [...], axioms {thm: [..]}, cmd.
     Cached by the hash of the Lean sources.
     """
+    out = _audit(theorems, timeout)
+    if out["build_ok"]:
+        tie = schema_tie(schema_groups)
+        out["schema_tie"] = {"groups": list(schema_groups), "ok": not tie}
+        if tie:
+            out["ok"] = False
+            out["problems"] += tie
+    return out
+
+
+def _audit(theorems, timeout=3000):
     t0 = time.time()
     cmd = "cd lean && lake build SpowtdModel driver && lake env lean SpowtdModel/Audit.lean"
     out = {"ok": True, "build_ok": True, "problems": [], "axioms": {}, "cmd": cmd}
